@@ -270,16 +270,40 @@ func checkC14(c *Check) {
 		return ok && isErrorT(ta.AssertedType) && vCall("(reflect.Value).Interface", valAt(1))(ta.X)
 	}), false)
 	one := edgesWhere(lit, cCmp(token.EQL, vLen(valsP), vConstInt(1)), true)
-	for i, e := range respVal.Edges {
-		pred := respVal.Block().Preds[i]
+	// incoming values of the selection, through nested φs (a helper's merged result)
+	type incoming struct {
+		e    ssa.Value
+		pred *ssa.BasicBlock
+		blk  *ssa.BasicBlock
+	}
+	var ins []incoming
+	seenPhi := map[*ssa.Phi]bool{}
+	var flat func(ph *ssa.Phi)
+	flat = func(ph *ssa.Phi) {
+		if seenPhi[ph] {
+			return
+		}
+		seenPhi[ph] = true
+		for i, e := range ph.Edges {
+			if inner, isPhi := e.(*ssa.Phi); isPhi {
+				flat(inner)
+				continue
+			}
+			ins = append(ins, incoming{e, ph.Block().Preds[i], ph.Block()})
+		}
+	}
+	flat(respVal)
+	for _, inc := range ins {
+		e, pred := inc.e, inc.pred
+		respBlk := inc.blk
 		switch {
 		case valAt(0)(e):
-			if !edgeGuarded(lit, one, pred, respVal.Block()) && !edgeGuarded(lit, notErrOfV1, pred, respVal.Block()) {
+			if !edgeGuarded(lit, one, pred, respBlk) && !edgeGuarded(lit, notErrOfV1, pred, respBlk) {
 				okSel, why = false, "vals[0] is selected although the second value is an error (or outside the one-/two-value shapes)"
 			}
 		case valAt(1)(e):
 			nV1++
-			if !edgeGuarded(lit, kindInt, pred, respVal.Block()) && !edgeGuarded(lit, isErrOfV1, pred, respVal.Block()) {
+			if !edgeGuarded(lit, kindInt, pred, respBlk) && !edgeGuarded(lit, isErrOfV1, pred, respBlk) {
 				okSel, why = false, "vals[1] is selected although vals[0] is not an int and vals[1] is not an error"
 			}
 		default:
